@@ -216,6 +216,13 @@ class CoherenceAnalyzer(BaseAnalyzer):
                                 tseries_length,
                                 spectrum_length))
 
+        def csd(a, b):
+            # The cross-spectrum f_ab. Only the upper triangle of the
+            # spectrum is filled for all methods (f_ba is conj(f_ab)):
+            if a <= b:
+                return self.spectrum[a][b]
+            return self.spectrum[b][a].conjugate()
+
         for i in range(tseries_length):
             for j in range(tseries_length):
                 for k in range(tseries_length):
@@ -223,11 +230,11 @@ class CoherenceAnalyzer(BaseAnalyzer):
                         pass
                     else:
                         p_coherence[i][j][k] = tsa.coherence_partial_spec(
-                            self.spectrum[i][j],
+                            csd(i, j),
                             self.spectrum[i][i],
                             self.spectrum[j][j],
-                            self.spectrum[i][k],
-                            self.spectrum[j][k],
+                            csd(i, k),
+                            csd(k, j),
                             self.spectrum[k][k])
 
         idx = tril_indices(tseries_length, -1)
